@@ -76,6 +76,9 @@ def make_seed(V, j, state, kind, setup, tag="w"):
         nd = 2
         us = [V.reals("%su%d" % (name, k), shp[0]) for k in range(nd)]
         vs = [V.reals("%sv%d" % (name, k), shp[1]) for k in range(nd)]
+        if V.symbolic:      # DyadCarrier drops zero vectors: keep one path by making each vector non-zero
+            for vec in us + vs:
+                V.assume(vec[0] != 0, "dyadic seed vectors have a non-zero first entry")
         dy = pym.DyadCarrier(list(us), list(vs))
         W = sum(np.outer(u, v) for u, v in zip(us, vs))
         return dy, W
